@@ -5,7 +5,7 @@ From Coq Require Import NArith List String Bool Arith Lia.
 From HW Require Import Word Chunks Packet Mem Stream X86 Portable Wasm.
 From HW.Refine Require Import ChunksFacts StreamRefine SourceTie SourceTieAppend PacketTie SourceTieWasmFull.
 From HW.Facts Require Import RustLite.
-From HWGen Require Import SrcPacket SrcWasmFull.
+From HWGen Require Import SrcPortable SrcPacket SrcWasmFull.
 Import ListNotations.
 Local Open Scope N_scope.
 
@@ -24,7 +24,7 @@ Ltac wbt :=
 (* stop at calls; the projections of an opaque state stay folded *)
 Ltac wn1 :=
   cbv beta iota zeta delta
-    [run_fn find_fn wall_fns wsrc_fns pkt_fns map app String.append
+    [run_fn find_fn wall_fns all_fns src_fns wsrc_fns pkt_fns map app String.append
      sub_env merge_back penv
      wsrc_WasmHash_new wsrc_WasmHash_zipper_merge wsrc_WasmHash_update wsrc_WasmHash_permute_and_update
      wsrc_WasmHash_finalize64 wsrc_WasmHash_finalize128 wsrc_WasmHash_finalize256 wsrc_WasmHash_modular_reduction
@@ -59,7 +59,7 @@ Proof. rewrite <- N.land_assoc. reflexivity. Qed.
 Section Bytes.
 Variable p : profile.
 Notation call := (call_fn p (wext p) wall_fns).
-Ltac conds := cbv beta iota zeta delta [eval_cond eval get lookup is_self substring String.eqb Ascii.eqb Bool.eqb genv lenv bind N.eqb Pos.eqb negb wext].
+Ltac conds := cbv beta iota zeta delta [eval_cond eval get lookup is_self substring String.eqb Ascii.eqb Bool.eqb genv lenv bind N.eqb Pos.eqb negb wext noext].
 Ltac next_call := set (CALL := call_fn p (wext p) wall_fns); repeat (progress (wn1; conds)); subst CALL.
 
 (* ---- HashPacket's methods under this table: from PacketTie *)
